@@ -63,6 +63,33 @@ def clades_of(tree, back):
     return frozenset(out)
 
 
+def malformed(trees):
+    """Why the returned objects are not self-contained trees (a node whose
+    parent link disagrees with the child lists, or a node shared by two
+    results), None when they are."""
+    seen = {}
+    for k, tree in enumerate(trees):
+        if tree is None:
+            continue
+        if tree.up is not None:
+            return f"result {k} is attached below another node"
+        for node in tree.traverse():
+            if id(node) in seen and seen[id(node)] != k:
+                return f"results {seen[id(node)]} and {k} share a node object"
+            seen[id(node)] = k
+            if any(child.up is not node for child in node.children):
+                return f"result {k}: a child's parent link does not point to its parent"
+    return None
+
+
+def ptrees(trees, back):
+    """Projection of a list of returned trees; objects that are not proper
+    trees project to a marker no specification value equals."""
+    if malformed(trees):
+        return [[[-98]]]
+    return [jtree(clades_of(t, back)) for t in trees]
+
+
 def jtree(clades):
     return sorted(sorted(c) for c in clades)
 
@@ -176,6 +203,10 @@ def run(ctx):
             ctx.violation(f"all_trees_from_triples fails on {case['triples']}: {allt.text}", case)
         else:
             got = sorted(jtree(clades_of(t, back)) for t in allt)
+            bad = malformed(allt)
+            if bad:
+                ctx.violation(f"all_trees_from_triples({case['triples']}) does not return proper trees: {bad}",
+                              dict(case, observed=bad))
             if got != sorted(jtree(t) for t in want):
                 ctx.violation(f"all_trees_from_triples({case['triples']}) returns {len(got)} trees "
                               f"({len(got) - len(set(map(str, got)))} repeated), {len(want)} binary trees display the triples",
@@ -251,7 +282,7 @@ def run(ctx):
         if isinstance(allt, mc.Raised):
             events.append(dict(ev, op="alltrees", trees=[[[-99]]]))
         else:
-            events.append(dict(ev, op="alltrees", trees=[jtree(clades_of(t, back)) for t in allt]))
+            events.append(dict(ev, op="alltrees", trees=ptrees(allt, back)))
     for _ in range(400 if thorough else 60):
         nl = rng.randint(4, 6)
         leaves = list(range(1, nl + 1))
@@ -277,7 +308,7 @@ def run(ctx):
         if isinstance(allt, mc.Raised):
             events.append(dict(ev, op="allsuper", trees=[[[-99]]]))
         else:
-            events.append(dict(ev, op="allsuper", trees=[jtree(clades_of(t, back)) for t in allt]))
+            events.append(dict(ev, op="allsuper", trees=ptrees(allt, back)))
     for _ in range(600 if thorough else 100):
         size = rng.randint(2, 9)
         ops = []
@@ -395,7 +426,7 @@ def replay(path):
         if isinstance(one, mc.Raised) or isinstance(allt, mc.Raised):
             return 1
         events.append(dict(ev, op="build", ok=one is not None, tree=[] if one is None else jtree(clades_of(one, back))))
-        events.append(dict(ev, op="alltrees", trees=[jtree(clades_of(t, back)) for t in allt]))
+        events.append(dict(ev, op="alltrees", trees=ptrees(allt, back)))
     elif op == "breakup":
         clades = frozenset(frozenset(c) for c in case["tree"])
         leaves = sorted(max(clades, key=len))
@@ -420,7 +451,7 @@ def replay(path):
             return 1
         ev = {"inputs": case["inputs"]}
         events.append(dict(ev, op="supertree", ok=one is not None, tree=[] if one is None else jtree(clades_of(one, back))))
-        events.append(dict(ev, op="allsuper", trees=[jtree(clades_of(t, back)) for t in allt]))
+        events.append(dict(ev, op="allsuper", trees=ptrees(allt, back)))
     else:
         print("replay of", op, "events: rerun the check with the recorded seed")
         return 2
